@@ -786,7 +786,7 @@ impl Property for C18 {
         "one case = 2-3 projects + a history of 2-5 invocations with different requested targets, different entry projects (-p the root or an imported project's own directory), --clean T for some targets, failing other targets, interleaved with edits. Oracle (both directions): each target's decision equals the model's decision computed from that target's own declared resources and its own last successful completion only. distinct_nontrivial = distinct order hashes among invocations where a target with a model record was evaluated"
     }
     fn generate(&self, rng: &mut Rng, _case: u64) -> Scenario {
-        gen_history(rng, &HistOpts { io: IoOpts { multi_project_pct: 85, max_targets: 6, cmd_pct: 20, cmd_output_pct: 0 }, max_invocations: 5, edit_pct: 50, touch_only: false, vary_entry: true, clean_pct: 20, fail_pct: 20, corrupt_pct: 0, io_fault_pct: 0 })
+        gen_history(rng, &HistOpts { io: IoOpts { multi_project_pct: 85, max_targets: 6, cmd_pct: 20, cmd_output_pct: 0 }, max_invocations: 5, edit_pct: 50, touch_only: false, vary_entry: true, clean_pct: 20, fail_pct: 20, corrupt_pct: 10, io_fault_pct: 0 })
     }
     fn evaluate(&self, sc: &Scenario, root: &Path, stats: &mut Stats) -> Option<Violation> {
         eval_history(sc, root, stats, Some(Which::Both), any_target, None, nontrivial_decision)
@@ -1069,6 +1069,38 @@ impl Property for C12 {
             extra.push(FileSpec { path: format!("{}/precious_dir/inner.o", p.dir), kind: FileKind::File("must survive too\n".into()) });
         }
         sc.files.extend(extra);
+        // unusual but valid declarations of output directories: an explicitly empty (or all-blank)
+        // extension list means "no filter" (the whole path goes); one resource may list
+        // overlapping paths, or the same path twice, under a filter (each file goes once)
+        for p in sc.projects.iter_mut() {
+            for t in p.targets.iter_mut() {
+                for r in t.output.iter_mut() {
+                    if let Res::Paths { paths, extensions } = r {
+                        if paths.len() != 1 || paths[0].ends_with(".out") {
+                            continue;
+                        }
+                        match extensions {
+                            None => {
+                                if rng.chance(40) {
+                                    *extensions = Some(if rng.chance(50) { vec![] } else { vec!["".to_string()] });
+                                }
+                            }
+                            Some(e) if e.iter().any(|x| !x.is_empty()) => {
+                                if rng.chance(35) {
+                                    let d = paths[0].clone();
+                                    if rng.chance(60) {
+                                        paths.push(format!("{}/nested", d));
+                                    } else {
+                                        paths.push(d);
+                                    }
+                                }
+                            }
+                            _ => {}
+                        }
+                    }
+                }
+            }
+        }
         // an output resource listing several paths, one of which never exists
         for p in sc.projects.iter_mut() {
             for t in p.targets.iter_mut() {
